@@ -262,7 +262,10 @@ public:
 	{
 		_thread = 0;
 		_threadFinished = false;
-		*this = start(f, this);
+		// started in place: going through start() and a temporary copy reset the finished flag
+		Context<F> s = { f, this, false, 0, 0, 0 };
+		run((Function_)Thread::beginf<F>, (void*)&s);
+		while (!s.ready) {}
 	}
 	template<class Func>
 	static Thread start(const Func& f, Thread* t)
